@@ -269,6 +269,37 @@ Example C01_near_earth_domain_satisfiable :
   - el_a el / 100 <= -11000 <= 100000.
 Proof. exact grs80_in_domain. Qed.
 
+(* 5. the reverse composition Cartesian -> geodetic -> Cartesian of the property statement, over the reals, for an
+   ARBITRARY point (no geodetic pre-image assumed) with |p| >= 0.98 a inside the cone |Z| <= 600 norm (geocentric
+   latitude <= 89.904 deg): toWGS84 returns within 7 passes and toECEF of the result reproduces X and Y exactly
+   (the height formula norm/cos(lat) - N makes the horizontal part exact for ANY latitude) and Z within 1 mm
+   (Z' - Z = Z (D(lat) - D(prev))/D(prev) with |lat - prev| <= EPSILON at the exit and D >= 0.98 on the interval). *)
+From Romea Require Import GeodesyCartesian.
+
+Theorem C01_roundtrip_cartesian : forall (el : ellipsoid (T:=R)) fuel X Y Z,
+  0 < el_a el <= 7000000 -> 0 <= el_e2 el <= / 100 ->
+  let norm := hnorm ROps X Y in
+  0 < norm -> 98 / 100 * el_a el <= sqrt (norm * norm + Z * Z) -> Rabs Z <= 600 * norm ->
+  (7 <= fuel)%nat ->
+  exists g, toWGS84 ROps fuel el (mkV3 X Y Z) = Some g /\
+    let p' := toECEF ROps el g in vx p' = X /\ vy p' = Y /\ Rabs (vz p' - Z) <= / 1000.
+Proof. intros el fuel X Y Z. exact (roundtrip_cartesian el fuel X Y Z). Qed.
+Print Assumptions C01_roundtrip_cartesian.
+
+(* every Cartesian point produced from the geodetic domain (|lat| <= 89.904 deg, h >= -a/100) meets the hypotheses of
+   C01_roundtrip_cartesian *)
+Theorem C01_cartesian_domain_covers_geodetic : forall (el : ellipsoid (T:=R)) lat lon h,
+  0 < el_a el -> 0 <= el_e2 el <= / 100 -> - PI / 2 < lat < PI / 2 -> / 600 <= cos lat -> - el_a el / 100 <= h ->
+  let p := toECEF ROps el (mkGeo lat lon h) in let norm := hnorm ROps (vx p) (vy p) in
+  0 < norm /\ 98 / 100 * el_a el <= sqrt (norm * norm + vz p * vz p) /\ Rabs (vz p) <= 600 * norm.
+Proof. intros el lat lon h. exact (toECEF_in_cartesian_domain el lat lon h). Qed.
+Print Assumptions C01_cartesian_domain_covers_geodetic.
+
+Example C01_cartesian_domain_satisfiable :
+  let el := grs80 ROps in let norm := hnorm ROps 6000000 0 in
+  0 < norm /\ 98 / 100 * el_a el <= sqrt (norm * norm + 2000000 * 2000000) /\ Rabs 2000000 <= 600 * norm.
+Proof. exact cartesian_domain_example. Qed.
+
 (* ---- syntactic tie of the forward map to the current source (gen/SrcFuns.v is regenerated from the clang AST of
    src/geodesy/ECEFConverter.cpp on every run) ---- *)
 From Romea Require Import SrcTie.
